@@ -59,6 +59,7 @@ func (c *Check) paramGetterName(key string) string {
 
 func ruleC14(c *Check) {
 	c.genesisBindingSetter("C14.4")
+	c.paramSetExact("C14.1")
 	c.assume("A-SDK: sdk.Coins.IsAllGTE / IsAllLT and sdk.Int arithmetic are correct")
 	c.paramGettersExact("C14.1", "KeyMinDeposit", "KeyMinDepositMultiple", "KeyBaseDenom", "KeySlashFraction")
 	md := c.minDepositFunc("C14.1")
